@@ -289,6 +289,108 @@ def registry_part(run, rng, thorough, workdir):
     return strings
 
 
+
+# ------------------------------------------------------------------ part 3b: database operations that touch the registry
+def db_part(run, rng, thorough, workdir, env):
+    """adsorbate_to_db / adsorbate_delete_db on a private copy of default.db, succeeding and REFUSED (adsorbate still
+    referenced by an isotherm, adsorbate absent, name already present), each followed by the lookup sweep for the names
+    involved: TLC checks every step against DbStepSpec (a refused operation leaves registry and lookups unchanged)."""
+    import pygaps
+    import pygaps.parsing.sqlite as sq
+    from pygaps.core.adsorbate import Adsorbate
+    from pygaps.core.baseisotherm import BaseIsotherm
+    from pygaps.core.pointisotherm import PointIsotherm
+    L = pygaps.ADSORBATE_LIST
+    db = os.path.join(workdir, "scratch.db")
+    shutil.copyfile(os.path.join(SRC, "pygaps", "data", "default.db"), db)
+    con = sqlite3.connect(db)          # plain SQL: an isotherm row that references nitrogen (and a material for it)
+    try:
+        itype = con.execute("SELECT type FROM isotherm_type LIMIT 1").fetchone()[0]
+        con.execute("INSERT INTO materials (name) VALUES ('zzmat')")
+        con.execute("INSERT INTO isotherms (id, iso_type, material, adsorbate, temperature) VALUES ('zz-ref', ?, 'zzmat', 'nitrogen', 77.0)", (itype,))
+        con.commit()
+    finally:
+        con.close()
+
+    def names():
+        return [a.name for a in L]
+
+    def name_of(fn, q):
+        try:
+            obj = fn(q)
+        except Exception as e:
+            return "<refused:" + exc_class(e) + ">"
+        return obj.name if any(obj is a for a in L) else "<unregistered object>"
+
+    sites = [("Adsorbate.find", Adsorbate.find),
+             ("BaseIsotherm.adsorbate", lambda q: BaseIsotherm(material="m", adsorbate=q, temperature=300, **UNITS).adsorbate),
+             ("PointIsotherm.adsorbate", lambda q: PointIsotherm(pressure=[1.0, 2.0], loading=[1.0, 2.0], material="m", adsorbate=q, temperature=300, **UNITS).adsorbate)]
+
+    def sweep(strs):
+        out = {}
+        for s in strs:
+            q = rng.choice(list(VARIANT_FN.values()))(s)
+            for site, fn in sites:
+                out[(site, s)] = (q, name_of(fn, q))
+        return out
+
+    nitrogen, argon = Adsorbate.find("nitrogen"), Adsorbate.find("argon")
+    user = Adsorbate("zzuser", alias=["zzalias"], molar_mass=10.0)
+    user2 = Adsorbate("zzuser", alias=["zzalias", "zzother"], molar_mass=11.0)
+    absent = Adsorbate("zzabsent", alias=["zzghost"])
+    ops = [("delete", nitrogen, lambda: sq.adsorbate_delete_db(nitrogen, db_path=db, verbose=False)),          # refused: referenced
+           ("delete", nitrogen, lambda: sq.adsorbate_delete_db("nitrogen", db_path=db, verbose=False)),        # by name, refused
+           ("delete", absent, lambda: sq.adsorbate_delete_db(absent, db_path=db, verbose=False)),              # refused: not in the file
+           ("to_db", user, lambda: sq.adsorbate_to_db(user, db_path=db, verbose=False)),                       # ok
+           ("to_db", user, lambda: sq.adsorbate_to_db(user, db_path=db, verbose=False)),                       # refused: name exists
+           ("delete", nitrogen, lambda: sq.adsorbate_delete_db(nitrogen, db_path=db, verbose=False)),          # refused again, user entry present
+           ("to_db_overwrite", user2, lambda: sq.adsorbate_to_db(user2, db_path=db, overwrite=True, verbose=False)),   # ok
+           ("to_db_overwrite", absent, lambda: sq.adsorbate_to_db(absent, db_path=db, overwrite=True, verbose=False)),  # refused
+           ("delete", user2, lambda: sq.adsorbate_delete_db(user2, db_path=db, verbose=False)),                # ok
+           ("delete", user2, lambda: sq.adsorbate_delete_db(user2, db_path=db, verbose=False)),                # refused: gone
+           ("delete", argon, lambda: sq.adsorbate_delete_db(argon, db_path=db, verbose=False))]                # ok: unreferenced shipped one (in the COPY)
+    strs = sorted(set(live_entry(nitrogen)["alias"] + live_entry(argon)["alias"] + ["zzuser", "zzalias", "zzother", "zzabsent", "zzghost"]
+                      + rng.sample(sorted(STRINGS_REF), 6)))
+    recs = []
+    saved = list(L)
+    try:
+        for op, ads, fn in ops:
+            pre, before = names(), sweep(strs)
+            try:
+                fn()
+                outcome = "ok"
+            except Exception as e:
+                outcome = "refused"
+                if exc_class(e) not in ("ParsingError",):
+                    run.note(f"db operation {op} {ads.name} refused with {exc_class(e)}")
+            after = sweep(strs)
+            recs.append({"k": "dbop", "op": op, "name": ads.name, "outcome": outcome, "e": live_entry(ads), "pre": pre, "post": names(),
+                         "sweep": [{"site": site, "s": s, "query": before[(site, s)][0], "before": before[(site, s)][1], "after": after[(site, s)][1]}
+                                   for (site, s) in sorted(before)]})
+            run.count(("dbop", op, ads.name, outcome, len(recs)), n=len(before))
+    finally:
+        L[:] = saved
+    expected = ["refused", "refused", "refused", "ok", "refused", "refused", "ok", "refused", "ok", "refused", "ok"]
+    got = [r["outcome"] for r in recs]
+    if got != expected:
+        run.note(f"db operations: outcomes {got} differ from the scripted expectation {expected} (not judged here: C08/C09)")
+    if got[0] != "refused":
+        raise MachineryError("the scratch database did not refuse deleting a referenced adsorbate: the history is not the intended one")
+    answers = tlc.oracle("RegistryOracle", recs, env=env, timeout=600)
+    for r, a in zip(recs, answers):
+        cls = {"site": "sqlite." + ("adsorbate_delete_db" if r["op"] == "delete" else "adsorbate_to_db"), "outcome": r["outcome"]}
+        if not a["ok"] or not a["shipped_prefix_kept"]:
+            run.violation({**cls, "observed": "registry changed by a refused operation" if r["outcome"] == "refused" else "registry step not allowed"},
+                          {"op": r["op"], "name": r["name"], "pre_tail": r["pre"][-3:], "post_tail": r["post"][-3:], "len": [len(r["pre"]), len(r["post"])]})
+        if a["lookups_changed"]:
+            x = a["lookups_changed"][0]
+            run.violation({**cls, "observed": "lookups changed" + (" by a refused operation" if r["outcome"] == "refused" else " for names the operation does not concern"),
+                           "lookup_site": x["site"]}, {"op": r["op"], "name": r["name"], "changed": a["lookups_changed"][:6]})
+    run.add("traces_validated_against_impl", len(recs))
+    run.set(db_operations=len(recs))
+    run.sample({"db_operation": {k: recs[0][k] for k in ("op", "name", "outcome")}, "lookups": recs[0]["sweep"][:3], "oracle": answers[0]})
+
+
 SHIPPED_REF = []
 STRINGS_REF = set()
 
@@ -462,7 +564,7 @@ def backend_part(run, rng, thorough):
     agg = Agg(run)
     for r, mt, a in zip(recs, meta, answers):
         run.count((mt["kind"], r["m"], mt["tcls"], r["calc"], r["unit"], r["can"], r["user_has"], mt["seq"]),
-                  nontrivial=(not r["can"]) or (not r["calc"]) or r["unit"] != "none" or mt["kind"].startswith("shipped"))
+                  nontrivial=(not r["can"]) or (not r["calc"]) or r["unit"] != "none" or mt["kind"].startswith("shipped") or bool(mt["seq"]))
         if a["impl_predicts"] != a["observed"] and a["ok"]:
             run.note(f"MODEL-DRIFT: {r['m']} {mt['kind']}: allowed outcome {a['observed']} but the transcription predicts {a['impl_predicts']}")
         if not a["ok"]:
@@ -547,6 +649,7 @@ def main(tier, seed):
             STRINGS_REF.update(x.lower() for x in a.alias)
             STRINGS_REF.add(a.name.lower())
         registry_part(run, rng, thorough, workdir)
+        db_part(run, rng, thorough, workdir, {"REG_DATA": os.path.join(workdir, "registry.json")})
     finally:
         shutil.rmtree(workdir, ignore_errors=True)
     linked, alpha, ref = backend_part(run, rng, thorough)
@@ -556,7 +659,8 @@ def main(tier, seed):
             rule="registry: every string the shipped registry answers to (names and aliases, case-folded) x {lower, upper, title, swapcase} x "
                  "{Adsorbate.find, BaseIsotherm, PointIsotherm" + (", ModelIsotherm" if thorough else "") + "}, three sources audited and compared; "
                  "store histories over the RegistryMC alphabet (all single stores, " + ("all pairs, 1000 seeded triples" if thorough else "120 seeded pairs") + "); "
-                 "fallback: 14 property methods x adsorbate kind x calculate x temperature class x unit, call pairs on one object, all shipped adsorbates; "
+                 "database operations (adsorbate_to_db / adsorbate_delete_db, succeeding and refused) on a private copy of default.db, each followed by the lookup sweep; "
+                 "fallback: every ordered pair (and seeded triples) of the 14 methods at ONE temperature on one object; 14 property methods x adsorbate kind x calculate x temperature class x unit, call pairs on one object, all shipped adsorbates; "
                  "consistency: all backend-linked adsorbates x temperature grid. non-trivial = not the plain lower-case find / the backend cannot deliver, "
                  "calculate=False, a unit is requested, or a shipped adsorbate; distinct = distinct (site, string, variant) / call configuration / (adsorbate, grid point)")
     run.assume("case folding is Python's str.lower(); TLC treats strings as opaque and the harness checks every rendered variant folds back")
